@@ -201,6 +201,25 @@ PROPS['C20'] = {
                     'urlencode is proved for str values only (bytes / int values: bounded)'],
 }
 
+PROPS['C17'] = {
+    'sidecars': ['contracts/C17_identity.py'],
+    'plugins': ['sqlmodel'],
+    'level': 'other',
+    'explanation': 'Decision logic under contract, all discharged: LiteIdentityKeyStore.isTrustedIdentity (trusted iff no row or byte-equal '
+                   'to the pinned key) and saveIdentity (the pin is replaced in one transaction: previous or new value at every crash point, '
+                   'never un-pinned; durable, hence enforced after restart) - shared with C13; AxolotlManager.create_session: an untrusted '
+                   'bundle without auto-trust raises the library exception and touches nothing, with auto-trust exactly one saveIdentity of '
+                   'exactly that key for exactly that contact, a trusted bundle never writes the pin; trust_identity; '
+                   'AxolotlReceivelayer.handleEncMessage (889 paths): the pinned key is only ever touched when the auto-trust option is on, at '
+                   'most one receipt / retry / key fetch per message, a receipt sent from here names the message.  NOT decided: that messaging '
+                   'resumes after auto-trust and that no message is encrypted for the new identity (inside python-axolotl: SessionBuilder / '
+                   'SessionCipher under assumed contracts), the send-side error reporting (layer_base.getKeysFor closures): level other.',
+    'assumptions': ['SessionBuilder.processPreKeyBundle raises UntrustedIdentityException(name, key) iff isTrustedIdentity is false and stores '
+                    'nothing before (read from the installed python-axolotl source)', 'sqlite3 transactional model (C13)',
+                    'the decrypt handlers, send_retry, getKeysFor are opaque events in handleEncMessage; termination of the auto-trust recursion '
+                    'is not proved'],
+}
+
 NOT_APPLICABLE = {
     'C11': 'quantifies over thread interleavings (2-4 sender threads through lock/queue operations); no verifier available here '
            'has a thread or permission model and sequential contracts cannot express "for every schedule" (DESIGN.md section 8)',
